@@ -1,20 +1,21 @@
 #!/bin/bash
-# tools/confirm_seed.sh <PID> : confirm /tmp/seed_out/<PID>/m{1,2} in worktree /tmp/seed_wt_<PID>; writes /tmp/seed_out/<PID>/mK/confirm.json
+# tools/confirm_seed.sh <PID> : confirm ${SEEDROOT:-/tmp/seed_out}/<PID>/m{1,2} in worktree /tmp/seed_wt_<PID>; writes ${SEEDROOT:-/tmp/seed_out}/<PID>/mK/confirm.json
 PID=$1
 WT=/tmp/seed_wt_$PID
 cd $WT || exit 1
-git checkout -q -- . ; git clean -fdq -e target
+mkdir -p $WT/tmp; export TMPDIR=$WT/tmp
+git checkout -q -- . ; git clean -fdq -e target -e tmp
 export CARGO_NET_OFFLINE=true
 suite() { cargo test --workspace --no-fail-fast --offline 2>&1 | grep -E "^test .* \.\.\. (ok|FAILED|ignored)" | sed -E 's/ - [^ ]+ \(line [0-9]+\)//; s/\(line [0-9]+\)//' | sort > $1; }
-[ -f /tmp/seed_out/$PID/base_suite.txt ] || suite /tmp/seed_out/$PID/base_suite.txt
+[ -f ${SEEDROOT:-/tmp/seed_out}/$PID/base_suite.txt ] || suite ${SEEDROOT:-/tmp/seed_out}/$PID/base_suite.txt
 for M in m1 m2; do
-  D=/tmp/seed_out/$PID/$M
+  D=${SEEDROOT:-/tmp/seed_out}/$PID/$M
   [ -f $D/patch.diff ] || continue
   LOC=$(python3 -c "import json;print(json.load(open('$D/meta.json'))['demo_location'])")
-  git checkout -q -- . ; git clean -fdq -e target
+  git checkout -q -- . ; git clean -fdq -e target -e tmp
   git apply $D/patch.diff || { echo "{\"applies\": false}" > $D/confirm.json; continue; }
   suite $D/mut_suite.txt
-  SAME=$(diff -q /tmp/seed_out/$PID/base_suite.txt $D/mut_suite.txt >/dev/null && echo true || echo false)
+  SAME=$(diff -q ${SEEDROOT:-/tmp/seed_out}/$PID/base_suite.txt $D/mut_suite.txt >/dev/null && echo true || echo false)
   cp $D/demo.rs $LOC
   PKG=$(echo $LOC | cut -d/ -f1); T=$(basename $LOC .rs)
   if [ "$PID" = "C18" ] && [ "$M" = "m2" ]; then
@@ -29,7 +30,7 @@ for M in m1 m2; do
     timeout 600 cargo test -p $PKG --test $T --offline > $D/demo_clean.log 2>&1; RC=$?
   fi
   rm -f $LOC
-  NB=$(wc -l < /tmp/seed_out/$PID/base_suite.txt)
+  NB=$(wc -l < ${SEEDROOT:-/tmp/seed_out}/$PID/base_suite.txt)
   echo "{\"applies\": true, \"suite_same_as_baseline\": $SAME, \"suite_tests\": $NB, \"demo_with_mutant_exit\": $RM, \"demo_on_clean_exit\": $RC}" > $D/confirm.json
 done
-git checkout -q -- . ; git clean -fdq -e target
+git checkout -q -- . ; git clean -fdq -e target -e tmp
